@@ -10,11 +10,13 @@ CHECKS = {'C02': {'level': 'exploration',
                       'queried point answers NaN / +inf / 1e300) with a deviation bound',
          'level_text': 'all 35 factory solvers + linear-penalty, quadratic-penalty, augmented-lagrangian x every '
                        'registered benchmark prototype at 1,2,4,8 (thorough: 32) dimensions + 4 harness quadratics + '
-                       '3 harness max-of-affine functions x 9 starting points x 2 epsilons x 4 budgets, thinned by '
-                       'the rule recorded in the evidence (axis "thinning"); every single (thorough: every pair of) '
-                       'non-finite/huge answer among the first 60 distinct queried points on 6 functions x all '
-                       'solvers; a complete small-scope enumeration, not a proof for other functions, starting '
-                       'points or parameter values',
+                       '3 harness max-of-affine functions x 9 starting points x 2 epsilons x 4 budgets. quick: all '
+                       'x0 x epsilon x budgets <= 1000 for n <= 2, elsewhere a diagonal (every x0 once, epsilon and '
+                       'budget cycling); thorough: the full product for n <= 2, budgets <= 1000 for n <= 8, the '
+                       'diagonal for n = 32, plus every solver parameter at both ends of its domain; every single '
+                       '(thorough: every pair of) NaN / +inf / 1e300 answers among the first 60 distinct queried '
+                       'points on 6 functions x all solvers; a complete small-scope enumeration, not a proof for '
+                       'other functions, starting points or parameter values',
          'level_note': 'trusted: the declared smooth()/convex() flags of the functions (C06 checks them), g++ 12, the '
                        'link-time replacement of std::random_device (engine/detrand.cpp) that makes the gradient '
                        'sampling solvers replayable, the solver log lines "[solver-<id>]" that delimit the outer '
@@ -36,6 +38,8 @@ CHECKS = {'C02': {'level': 'exploration',
                          'fault stage: only the honesty clauses (termination, dimension, fx/gx equal what the '
                          'poisoned function returns at x, status, counts, finiteness unless failed); x0 = 1*ones, '
                          'epsilon 1e-8, max_evals 100',
+                         'stage params runs every case alone in a forked child (a crash is one keyed violation); '
+                         'its budgets are 100 and 300 evaluations',
                          'benchmark prototypes are instantiated with 10 summands'],
          'deadline': {'quick': 900, 'thorough': 6000},
          'stages': [{'name': 'honest',
